@@ -37,7 +37,7 @@ struct Content {
     bool locks = false; bool analogGroupEmpty = false; int valueSet = 0; int gapWord = 10;
     // hooks used by the C12 pattern files
     std::function<uint32_t(int, int, int)> ptFn, anFn; std::vector<GParam> customParams; std::vector<uint32_t> eventTimes; bool haveRateBits = false; uint32_t rateBits = 0;
-    int lastOverride = -1; bool blankLabel = false;
+    int lastOverride = -1; bool blankLabel = false; bool reservedNonZero = false;
 };
 struct Layout {
     int zeros = 0; bool zeroPrologue = false; int paramBlock = 2; std::string order = "default"; std::string ids = "dense"; bool lastOffsetZero = false; bool lowerNames = false;
@@ -133,13 +133,13 @@ inline std::string encode(const Content& c, const Layout& l) {
     if (dataStartAt) { ps[dataStartAt] = (char)(dataBlock & 0xff); ps[dataStartAt + 1] = (char)((dataBlock >> 8) & 0xff); }
     std::string h; p8(h, l.paramBlock); p8(h, 0x50); p16(h, c.nPoints); p16(h, c.nChans * c.spf); p16(h, c.first); p16(h, c.lastOverride >= 0 ? c.lastOverride : c.first + c.nFrames - 1); p16(h, c.gapWord);
     p32(h, c.scaleBits); p16(h, dataBlock); p16(h, c.spf); p32(h, c.haveRateBits ? c.rateBits : f2b(c.pointRate));
-    while (h.size() < 294) p8(h, 0);
+    while (h.size() < 294) p8(h, c.reservedNonZero ? (int)(0x34 + h.size() * 7) : 0);   // reserved words 13..147
     p16(h, 0); p16(h, 0); p16(h, 0x3039); p16(h, c.nEvents); p16(h, 0);
     for (int i = 0; i < 18; ++i) p32(h, (size_t)i < c.eventTimes.size() ? c.eventTimes[(size_t)i] : i < c.nEvents ? f2b(0.5f + (float)i * 1.25f) : 0);
     for (int i = 0; i < 18; ++i) p8(h, i < c.nEvents ? (i % 2) : 0);
     p16(h, 0);
     for (int i = 0; i < 18; ++i) { std::string lab = i < c.nEvents ? (i % 3 == 0 ? "RHS " : i % 3 == 1 ? "LTO1" : "E") : ""; lab.resize(4, i < c.nEvents && i % 3 == 0 ? ' ' : '\0'); h += lab; }
-    while (h.size() < 512) p8(h, 0);
+    while (h.size() < 512) p8(h, c.reservedNonZero ? (int)(0x91 + h.size() * 3) : 0);    // reserved words 235..256
     std::string out(std::string((size_t)l.zeros, '\0'));
     out += h;
     for (int b = 2; b < l.paramBlock; ++b) out += std::string(512, (char)0xEE);   // junk block(s) between header and parameters
@@ -175,6 +175,7 @@ inline std::vector<Dim> dims(bool thorough) {
     d.push_back({"ids", {"dense", "sparse", "swapped"}});
     d.push_back({"lastoff", {"ptr", "zero"}});
     d.push_back({"agroup", {"full", "empty"}});
+    d.push_back({"reserved", {"zero", "nonzero"}});
     return d;
 }
 using Choice = std::map<std::string, std::string>;
@@ -188,6 +189,7 @@ inline bool apply(const Choice& ch, Content& c, Layout& l) {   // returns false 
     std::string al = get("alabels", "equal"); c.alabelsDelta = al == "fewer" ? -1 : al == "more" ? 1 : 0; if (al == "fewer" && c.nChans == 0) return false;
     l.zeros = atoi(get("zeros", "0").c_str()); l.zeroPrologue = get("prologue", "0150") == "0000"; l.paramBlock = atoi(get("pblock", "2").c_str()); l.order = get("order", "default"); l.ids = get("ids", "dense");
     l.lastOffsetZero = get("lastoff", "ptr") == "zero";
+    c.reservedNonZero = get("reserved", "zero") == "nonzero";
     c.analogGroupEmpty = get("agroup", "full") == "empty"; if (c.analogGroupEmpty) { if (ch.count("chans") && ch.at("chans") != "0") return false; c.nChans = 0; if (ch.count("alabels")) return false; }
     if (c.nChans == 0) { c.spf = ch.count("spf") ? c.spf : 2; }
     if (l.ids == "sparse" && c.extra == "none") return false;
